@@ -421,16 +421,23 @@ def gen_c10bgp(rng, tier):
     n = 800 if tier == "quick" else 16000
     for _ in range(n):
         prog = "none" if rng.chance(8) else gen_prog(rng, "bgp", peerdown=6)
-        if prog != "none" and rng.chance(45):
-            # verdict and output depend on the session's provenance: the peer's AS (the scripted session's peer is
-            # AS12345), the unit's own AS (65000), AS0, an AS of the pools
-            prog = prov_clause(rng, [12345, 12345, 12345, 65000, 0, 65001, 174]) + " " + prog
-        ops = ["F bgp %s" % prog]
+        # one case in four is a REAL session (loopback TCP, routecore's FSM): a peer of some AS - 2-octet with or
+        # without the 4-octet capability, 4-octet, the unit's own AS (iBGP) - so that the provenance comes from what
+        # the session negotiated; the others use the scripted session (NegotiatedConfig::dummy(), AS12345)
+        real = rng.chance(25)
+        peer = rng.choice([65001, 174, 65000, 4200000001, 4200000001, 12345, 64512, 23456]) if real else 12345
+        four = 1 if peer >= 65536 or rng.chance(60) else 0
+        if prog != "none" and rng.chance(60 if real else 45):
+            # verdict and output depend on the session's provenance: the peer's AS, the unit's own AS (65000), AS0,
+            # AS_TRANS, an AS of the pools
+            prog = prov_clause(rng, [peer, peer, peer, 65000, 0, 23456, 65001, 174]) + " " + prog
+        ops = ["F bgp %s" % prog] + (["A %d %d" % (peer, four)] if real else [])
         pool = [rng.choice(PFXS) for _ in range(3)]
         for tag in range(1, rng.range(2, 7)):
             ann = sorted({rng.choice(pool) for _ in range(rng.below(4))})
             wd = sorted({rng.choice(pool) for _ in range(rng.below(3))} - set(ann)) if rng.chance(40) else []
-            ops.append("G %d %s %s %s" % (tag, gen_attrs(rng), ",".join(map(str, ann)) or "-", ",".join(map(str, wd)) or "-"))
+            ops.append("G %d %s %s %s" % (tag, gen_attrs(rng, legacy=(real and not four)), ",".join(map(str, ann)) or "-",
+                                          ",".join(map(str, wd)) or "-"))
         yield ";".join(ops)
 
 
@@ -441,6 +448,10 @@ def nontrivial_bgp(case, out):
 def classify_bgp(case, out):
     ks = ["no-filter" if case.startswith("F bgp none") else "filter"]
     nu, ng = out.count("U["), case.count(";G ")
+    if ";A " in case:
+        ks.append("real-session")
+        ks.append("real-session:" + ("as4-peer" if int(case.split(";")[1].split()[1]) >= 65536 else
+                                     "as2-peer-with-capability" if case.split(";")[1].split()[2] == "1" else "as2-peer"))
     ks.append("all-accepted" if nu == ng else "all-rejected" if nu == 0 else "some-rejected")
     if "O[" in out:
         ks.append("has-output")
@@ -466,6 +477,13 @@ def corpus_c10bgp():
         # (announcements, withdrawals only, both, none) gets the verdict of the session's peer AS
         "F bgp if pasn #65000 out custom #9 #9 ret R end let asn 12345 if pasn $0 out asn $0 ret R ret A end;"
         "G 5 s65001.65003/-/-/- %d -;G 6 -/-/-/- - %d;G 7 s65003/-/-/- %d %d;G 8 -/-/-/- - -" % (P, P, P2, P),
+        # real sessions: a 4-octet AS peer (My AS = AS_TRANS, the AS in the capability), a 2-octet peer without the
+        # capability (AS_PATH with 2-octet AS numbers), a peer of the unit's own AS
+        "F bgp if pasn #23456 out custom #2 #3 end end let asn 4200000001 if pasn $0 out asn $0 ret R ret A end;A 4200000001 1;"
+        "G 5 s4200000001.65003/-/-/- %d -;G 6 -/-/-/- - %d;G 8 -/-/-/- - -" % (P, P),
+        "F bgp if asc #65003 out asn #65003 end end if pasn #174 out custom #1 #1 ret A end ret R;A 174 0;G 5 s174.65003/-/-/- %d -;G 6 s174/7/-/- %d %d" % (P, P2, P),
+        "F bgp if pasn #65000 out custom #9 #9 ret R end ret A;A 65000 1;G 5 s65001.65003/-/-/- %d -" % P,
+        "F bgp none;A 65001 1;G 5 s65001.65003/-/-/- %d -;G 6 -/-/-/- - %d" % (P, P),
         "F bgp if not pasn #12345 out custom #1 #1 ret R end ret A;G 5 s65001.65003/-/-/- %d -;G 6 -/-/-/- - %d;G 8 -/-/-/- - -" % (P, P),
         "F bgp let asn 65536 let com 4294902426 if aso $0 out origin $0 end end if com $1 out comm $1 end end ret A;"
         "G 1 s65001.65536/4294902426/-/- %d -;G 2 s65536.65001/7/-/- %d %d" % (P, P2, P),
